@@ -12,13 +12,14 @@ from .c10 import TimedWorld, expected_instants
 def reject_case(draw):
   cap = draw(st.sampled_from([1, 2, 3, 3, 5]))
   tracked = [{"kind": draw(st.sampled_from(["fifo", "lifo"])),
-              "period": draw(st.sampled_from([0.5, 1.0, 2.0])), "times": 0,
+              "period": draw(st.sampled_from([0.5, 1.0, 2.0])), "times": draw(st.sampled_from([0, 0, 0, 1, 2])),
               "deferred": draw(st.booleans())} for _ in range(cap)]
   rejected = {"kind": draw(st.sampled_from(["fifo", "lifo"])),
               "period": draw(st.sampled_from([1e-6, 0.25, 0.5, 5.0])),
               "times": draw(st.sampled_from([0, 1, 3])),
               "deferred": draw(st.sampled_from([False, False, True]))}
   return {"cap": cap, "tracked": tracked, "rejected": rejected,
+          "delay": draw(st.sampled_from([0.0, 0.0, 1.25, 5.0])),   # finite tracked sources may have finished
           "attempts": draw(st.integers(1, 2)), "schedule": [list(x) for x in draw(schedule_st)]}
 
 
@@ -28,8 +29,9 @@ class C31(Prop):
   thorough_examples = 3000
   rule = ("Generated scenarios under the deterministic scheduler and virtual clock: an ActiveObject "
           "subclass that declares QUEUE_SIZE 1..5 (its limit of tracked timed sources; thorough adds "
-          "the shipped limit of 500) is filled to that limit with endless sources (periods 0.5-2.0, "
-          "deferred or not), then 1-2 further timed posts are attempted (fifo/lifo, period 1e-6..5, "
+          "the shipped limit of 500) is filled to that limit with tracked sources (periods 0.5-2.0, "
+          "deferred or not, endless or 1-2 shots), then - at once or after 1.25 / 5 s, when the "
+          "finite ones have finished but still occupy their slots - 1-2 further timed posts are attempted (fifo/lifo, period 1e-6..5, "
           "times 0/1/3, deferred or not) under generated schedules, and time runs on for several "
           "periods. Oracle: every further attempt raises ActiveObjectOutOfPostedEventResources; the "
           "rejected source's event is never posted (no post invocation carrying its id, at any "
@@ -74,6 +76,8 @@ class C31(Prop):
       for k, src in enumerate(case["tracked"]):
         getattr(chart, "post_" + src["kind"])(Event(signal=signals["VB"], payload=k), period=src["period"],
                                               times=src["times"], deferred=src["deferred"])
+      if case.get("delay"):
+        s.sleep_until(info["t0"] + case["delay"])
       rj = case["rejected"]
       for a in range(case["attempts"]):
         try:
@@ -84,7 +88,7 @@ class C31(Prop):
           info["raised"].append("ActiveObjectOutOfPostedEventResources")
         except Exception as e:
           info["raised"].append(type(e).__name__)
-      horizon = info["t0"] + (4.0 if case["cap"] != 500 else 1.0)
+      horizon = info["t0"] + case.get("delay", 0.0) + (4.0 if case["cap"] != 500 else 1.0)
       info["horizon"] = horizon
       s.sleep_until(horizon)
       info["posts"] = [dict(p) for p in rec.posts]
